@@ -162,11 +162,10 @@ def check (pre : State) (op : Op) (word : String) (post : State) : List Fail :=
 
 /-! ### the random slice of C13, as a monitor over the same observations -/
 
-/-- queue entries <-> pending requests: every entry sits under the id of its own request, was
-    requested at or below the current height and is not overdue -/
+/-- queue entries <-> pending requests: every entry sits under the id of its own request and is
+    not overdue (a request's own height may exceed the current one after a zero-height restart) -/
 def hygiene (post : State) : List Fail :=
   failIf (post.queue.any fun e => e.1.2 != requestId e.2.height e.2.consumer) "queue-entry-id-mismatch" ++
-  failIf (post.queue.any fun e => decide (e.2.height > post.height)) "queue-entry-from-the-future" ++
   failIf (post.queue.any (staleEntry post.height)) "stale-entry"
 
 def checkC13 (pre : State) (op : Op) (word : String) (post : State) : List Fail :=
